@@ -240,6 +240,35 @@ pub fn rec_build(a: &Args, out: &mut Out) {
     }
 }
 
+/// one build_generated_message call (the library's test generator shares the builder's buffer and prologue),
+/// recorded like a build_message session
+pub fn record_generated_build(b: &mut MessageBuilder, num: u16, seed: u64, out: &mut Out) {
+    use rtcm_rs::val_gen::ValGen;
+    let mk = |s: u64| ValGen::new(crate::util::rng(s, 1), crate::util::rng(s, 2), crate::util::rng(s, 3));
+    sink::install();
+    let res = guarded(|| {
+        let mut vg = mk(seed);
+        b.build_generated_message(&mut vg, num).map(|f| f.to_vec())
+    });
+    let evs = sink::take();
+    let fresh = guarded(|| {
+        let mut vg = mk(seed);
+        MessageBuilder::new().build_generated_message(&mut vg, num).map(|f| f.to_vec())
+    });
+    out.emit(json!({"ev": "BuildBegin", "variant": format!("Generated{}", num), "number": num, "number_api": num, "generated": true}));
+    for e in put_events(&evs) {
+        out.emit(e);
+    }
+    let render = |r: &Result<Result<Vec<u8>, RtcmError>, String>| match r {
+        Ok(Ok(f)) => ("ok".to_string(), f.clone()),
+        Ok(Err(e)) => (format!("err:{}", err_name(e)), vec![]),
+        Err(p) => (format!("panic:{}", p), vec![]),
+    };
+    let (o, frame) = render(&res);
+    let (fo, fframe) = render(&fresh);
+    out.emit(json!({"ev": "BuildEnd", "out": o, "frame": bytes_json(&frame), "fresh_out": fo, "fresh": bytes_json(&fframe)}));
+}
+
 /// C12: long histories on a single builder
 pub fn rec_history(a: &Args, out: &mut Out) {
     let mut r = rng(a.seed(), 12);
@@ -252,8 +281,15 @@ pub fn rec_history(a: &Args, out: &mut Out) {
         out.emit(json!({"ev": "NewBuilder"}));
         let mut b = MessageBuilder::new();
         for _ in 0..calls {
-            let m = &pool[r.gen_range(0..pool.len())];
-            record_build(&mut b, m, out, json!({}));
+            if r.gen_range(0..5) == 0 {
+                // the other entry point that uses the same buffer
+                let num = *pick(&mut r, &nums);
+                let seed: u64 = r.gen();
+                record_generated_build(&mut b, num, seed, out);
+            } else {
+                let m = &pool[r.gen_range(0..pool.len())];
+                record_build(&mut b, m, out, json!({}));
+            }
         }
     }
 }
